@@ -79,6 +79,22 @@ type itCase struct {
 	Ref    string     `json:"reference"`
 }
 
+// faultCfg names a cache configuration for the faulted-request sweep (C09: iterator caches + shared
+// iterators; C08: the Check query cache).
+type faultCfg struct {
+	Tag  string // prefix of violation signatures ("" for C09)
+	Opts func(det *cachex.Cache) []server.OpenFGAServiceV1Option
+}
+
+var iteratorCachesCfg = faultCfg{Tag: "", Opts: func(det *cachex.Cache) []server.OpenFGAServiceV1Option {
+	return []server.OpenFGAServiceV1Option{server.WithCheckIteratorCacheEnabled(true), server.WithCheckIteratorCacheTTL(time.Hour),
+		server.WithListObjectsIteratorCacheEnabled(true), server.WithListObjectsIteratorCacheTTL(time.Hour), server.WithSharedIteratorEnabled(true), server.WithCheckCache(det)}
+}}
+
+var queryCacheCfg = faultCfg{Tag: "query-cache/", Opts: func(det *cachex.Cache) []server.OpenFGAServiceV1Option {
+	return []server.OpenFGAServiceV1Option{server.WithCheckQueryCacheEnabled(true), server.WithCheckQueryCacheTTL(time.Hour), server.WithCheckCache(det)}
+}}
+
 func C09(o *core.Options) int {
 	r := core.NewReport(o, "fault_enumeration",
 		"for every world (model family representatives without conditions x tuple subsets of size<=2) and every request pair <q1,q2> over Check (every node) and ListObjects: q1 runs on a server with the Check and ListObjects iterator caches and shared iterators on, with the request context CANCELLED at the k-th datastore operation (read call or iterator Next/Head) for EVERY k up to the number of operations the undisturbed q1 makes, and again with a non-cancellation ERROR injected at every k; the background drains are awaited; then every q2 runs undisturbed: its answer must be the reference answer or one the cache-less server gives (a partially read query result is never served as complete); non-trivial = (world,q1,k) triples whose fault was actually delivered")
@@ -88,6 +104,16 @@ func C09(o *core.Options) int {
 		if isCiter, code := c09ReplayCiter(o); isCiter {
 			return code
 		}
+		return faultReplay(o, r, iteratorCachesCfg)
+	}
+	faultSweep(o, r, iteratorCachesCfg, 30, 3)
+	c09CachedIterators(o, r)
+	return r.Finish()
+}
+
+// faultReplay re-executes a recorded <q1 faulted at k, q2> case.
+func faultReplay(o *core.Options, r *core.Report, fc faultCfg) int {
+	{
 		var c itCase
 		if err := core.LoadReplay(o.Replay, &c); err != nil {
 			fmt.Println("replay:", err)
@@ -100,8 +126,7 @@ func C09(o *core.Options) int {
 			if c.Config != "v1" {
 				base = append(base, server.WithExperimentals("weighted_graph_check", "pipeline_list_objects"))
 			}
-			cached := append([]server.OpenFGAServiceV1Option{server.WithCheckIteratorCacheEnabled(true), server.WithCheckIteratorCacheTTL(time.Hour),
-				server.WithListObjectsIteratorCacheEnabled(true), server.WithListObjectsIteratorCacheTTL(time.Hour), server.WithSharedIteratorEnabled(true), server.WithCheckCache(det)}, base...)
+			cached := append(fc.Opts(det), base...)
 			env := &e2.Env{S: e2.NewServer(fds, cached...), DS: fds, M: c.World.M}
 			if err := env.NewStore(); err != nil {
 				fmt.Println(err)
@@ -134,11 +159,17 @@ func C09(o *core.Options) int {
 		}
 		return r.Finish()
 	}
+}
+
+// faultSweep: for every world and request pair <q1,q2>, q1 runs with the caches of fc on while its context is
+// cancelled / a datastore error is injected at the k-th datastore operation, for every k; then every q2 runs
+// undisturbed and must answer like the reference or like the cache-less server.
+func faultSweep(o *core.Options, r *core.Report, fc faultCfg, quickStride, thoroughStride int) {
 	all := e2.ValidModels(ref.Family(ref.FamilyOpts{Conds: false}))
 	reps := ref.Representatives(all, 1, o.Seed)
-	stride := 30
+	stride := quickStride
 	if o.Thorough() {
-		stride = 3
+		stride = thoroughStride
 	}
 	var models []*ref.Model
 	for i, m := range reps {
@@ -146,7 +177,7 @@ func C09(o *core.Options) int {
 			models = append(models, m)
 		}
 	}
-	r.Set("models_in_family", len(models))
+	r.Set(fc.Tag+"fault_sweep_models", len(models))
 	u := ref.DefaultUniverse()
 	cfgs := []struct {
 		name string
@@ -175,8 +206,7 @@ func C09(o *core.Options) int {
 			if cfg.v2 {
 				base = append(base, server.WithExperimentals("weighted_graph_check", "pipeline_list_objects"))
 			}
-			cached := append([]server.OpenFGAServiceV1Option{server.WithCheckIteratorCacheEnabled(true), server.WithCheckIteratorCacheTTL(time.Hour),
-				server.WithListObjectsIteratorCacheEnabled(true), server.WithListObjectsIteratorCacheTTL(time.Hour), server.WithSharedIteratorEnabled(true), server.WithCheckCache(det)}, base...)
+			cached := append(fc.Opts(det), base...)
 			env := &e2.Env{S: e2.NewServer(fds, cached...), DS: fds, M: m}
 			defer env.Close()
 			if err := env.NewStore(); err != nil {
@@ -247,9 +277,9 @@ func C09(o *core.Options) int {
 							if mode == dsx.ErrorAt {
 								fault = "error"
 							}
-							sig := "answer-after-faulted-request-differs-from-uncached/" + cfg.name + "/" + fault + "/" + q2.Kind
+							sig := fc.Tag + "answer-after-faulted-request-differs-from-uncached/" + cfg.name + "/" + fault + "/" + q2.Kind
 							if fault == "error" && got == "ERR" {
-								sig = "datastore-error-of-earlier-request-served-to-later-requests/" + cfg.name
+								sig = fc.Tag + "datastore-error-of-earlier-request-served-to-later-requests/" + cfg.name
 							}
 							r.Violate(sig,
 								fmt.Sprintf("%s model{%s} tuples{%s}: %s with %s at datastore operation %d, then %s = %s (uncached %v, reference %s)", cfg.name, m, e2.TuplesStr(ts), q1, fault, k, q2, got, ul, refs[qi]),
@@ -261,9 +291,7 @@ func C09(o *core.Options) int {
 			if len(ts) == 2 {
 				r.Sample(map[string]any{"model": m.String(), "tuples": e2.TuplesStr(ts), "config": cfg.name, "requests": len(reqs)})
 			}
-			r.Count("worlds", 1)
+			r.Count(fc.Tag+"worlds", 1)
 		})
 	})
-	c09CachedIterators(o, r)
-	return r.Finish()
 }
